@@ -1,7 +1,7 @@
 CONSTANTS M = 2
 K = 2
 UsedCheck = TRUE
-ChanCap = 0
+ChanCap = 2
 PoolSet = "all"
 SPECIFICATION Spec
 INVARIANTS WgNeverNegative NoSendOnClosed CloseAfterAllDone WgCountsLive ResultIsRings
